@@ -176,17 +176,18 @@ Print Assumptions C15_read_text_canonical.
 (* ---- character level over LAYOUTS (Model/BenchLayout.v): per statement the keyword case (INPUT/input, OUTPUT/output, DFF/dff),
    arbitrary whitespace of the \s class at every position where the patterns have \s*, arbitrary blanks (blank, tab, newline)
    around every operand; between statements arbitrary whitespace (also none: several statements per line, blank lines, CR LF)
-   and comments with any content (# ... newline), also before the first statement; the line list itself is in any order ---- *)
-Theorem C15_scan_layout : ∀ g0 ls, wfb (lines_of ls) = true → layouts_ok g0 ls →
-  scan_codes (render_layout g0 ls) = by_pass (lines_of ls).
-Proof. exact scan_layout. Qed.
+   and comments with any content (# ... newline), also before the first statement, and a final comment that no newline
+   terminates (fin); the line list itself is in any order ---- *)
+Theorem C15_scan_layout : ∀ g0 ls fin, wfb (lines_of ls) = true → layouts_ok g0 ls → fin_ok fin →
+  scan_codes (render_layout_fin g0 ls fin) = by_pass (lines_of ls).
+Proof. exact scan_layout_fin. Qed.
 Print Assumptions C15_scan_layout.
 
 (* END TO END over layouts: comment removal + regex scans + post-processing + the four API passes on ANY laid-out text of a
    well-formed line list give the closed-form circuit, i.e. (C15_bench_read_denotes) the circuit the text denotes *)
-Theorem C15_read_text_layout : ∀ name text g0 ls, codes text = render_layout g0 ls → wfb (lines_of ls) = true → layouts_ok g0 ls →
-  bench_read_text name text = Ok (bench_closed name (lines_of ls)).
-Proof. exact read_text_layout. Qed.
+Theorem C15_read_text_layout : ∀ name text g0 ls fin, codes text = render_layout_fin g0 ls fin → wfb (lines_of ls) = true →
+  layouts_ok g0 ls → fin_ok fin → bench_read_text name text = Ok (bench_closed name (lines_of ls)).
+Proof. exact read_text_layout_fin. Qed.
 Print Assumptions C15_read_text_layout.
 
 (* ---- non-vacuity: a well-formed text with a repeated operand, a constant-producing line and two chained flops ---- *)
@@ -216,5 +217,6 @@ Proof. vm_compute. reflexivity. Qed.
 Definition ex_lay : lay := {| l_lc := true; l_w1 := [32; 9]; l_w2 := [10]; l_w3 := [32]; l_ob := λ _, [32]; l_oa := λ _, [9; 10] |}.
 Definition ex_layout : list lunit :=
   (λ l, (l, ex_lay, [SWs [32]; SComment (codes " y = OR(a,b) INPUT(zz) # x"); SWs [13; 10]])) <$> ex_lines.
-Example C15_ex_layout_scan : bool_decide (scan_codes (render_layout [SComment (codes " c17 OUTPUT(q)")] ex_layout) = by_pass ex_lines) = true.
+Example C15_ex_layout_scan :
+  bool_decide (scan_codes (render_layout_fin [SComment (codes " c17 OUTPUT(q)")] ex_layout (Some (codes " INPUT(end)"))) = by_pass ex_lines) = true.
 Proof. vm_compute. reflexivity. Qed.
